@@ -48,6 +48,7 @@ struct Obj {
 struct XRunner {
   Window2 w;
   double jitter;  // 0 or the magnitude of the pseudo-random displacement of input vertices
+  bool inflate = false;
   std::vector<Obj> objs;
   std::vector<Sample> samples;  // per pixel: centre first, then 4 generic points
   json fails = json::array();
@@ -206,6 +207,9 @@ struct XRunner {
           Rect r;
           for (auto& v : cs[0]) r.Union(v);
           o.cs = via == "rect" ? CrossSection(r) : CrossSection::Square(r.Size()).Translate(r.min);
+          // --inflate: a rectangle has nothing to decimate, so raising its tolerance does not change the
+          // region it denotes; later Booleans must still resolve features at EPSILON, not at this tolerance
+          if (inflate) o.cs = o.cs.SetTolerance(0.75);
         } else if (via == "simple") {
           o.cs = eo ? CrossSection::EvenOdd(cs[0]) : CrossSection(cs[0]);
         } else {
@@ -270,6 +274,7 @@ int XsecMain(int argc, char** argv) {
     out.line({{"begin", i}});
     const int K = progs[i].contains("K") ? progs[i]["K"].get<int>() : (int)args.num("K", 4);
     XRunner r(Window2{K}, jitter);
+    r.inflate = args.has("inflate");
     r.rng ^= (uint64_t)(i + 1) * 0x2545F4914F6CDD1Dull;
     r.run(progs[i]);
     if (!r.fails.empty()) nfail++;
